@@ -36,6 +36,7 @@ func runC01(c *report.Ctx) {
 	checkEventBuffer(c, false)
 	c.Clause("3 header wiring")
 	checkHeaderWiring(c)
+	checkNoDeclaredLength(c)
 	checkFrontEndWiring(c)
 	c.Clause("4 fresh id and deadline")
 	checkIDAndDeadline(c)
